@@ -251,6 +251,18 @@ def run(prog: Program, chk: Check):
             # the check must raise on its true branch and dominate every order statistic
             raising = [n for n in checks if any(e.kind == "true" and g.exit.id not in flow.reach(g, [e.dst], follow=lambda x: x.kind != "exc") for e in g.succ[n.id])]
             undominated = flow.must_precede(g, raising, [n for n, _ in stats])
+            # the same check written as a loop: `for v in value: if not isinstance(v, int): raise TypeError` - the order
+            # statistic is then reachable only across the exhaustion of that loop
+            if undominated or not raising:
+                for lpn in [n for n in g.nodes if n.kind == "for" and path_of(n.ast.iter) == p and isinstance(n.ast.target, ast.Name) and not n.ast.orelse]:
+                    v_ = n_v = lpn.ast.target.id
+                    body = lpn.ast.body
+                    okb = len(body) == 1 and isinstance(body[0], ast.If) and norm(body[0].test) == f"not isinstance({v_}, int)" and not body[0].orelse \
+                        and isinstance(body[0].body[-1], ast.Raise) and not any(isinstance(x, (ast.Break, ast.Continue, ast.Return)) for x in walk_local(lpn.ast))
+                    if okb:
+                        r_ = flow.reach(g, [g.entry.id], follow=lambda e, lid=lpn.id: not (e.src == lid and e.kind == "done"))
+                        if all(n.id not in r_ for n, _ in stats):
+                            undominated, raising = [], [lpn]
             Q.decide(not undominated and bool(raising), fkey(f, "order-statistic"), where(f, stats[0][1]),
                      "max/min used only after every element was checked to be an int (total order)",
                      f"{f.qual}: `{norm(stats[0][1])}` decides by an order statistic without a dominating all-int check (floats/NaN make max/min position dependent)")
@@ -278,10 +290,11 @@ def run(prog: Program, chk: Check):
         gs = flow.guard_states(g)
         goal = guards.parse(tmpl.format(v=v))
         paths = []
+        vcm = guards.copy_map(fi.node, pure_calls=("int", "float", "len"))  # `int_value = int(value)` is looked through
         for e in g.pred[g.exit.id]:
             if e.kind in ("exc", "except"):
                 continue
-            paths += gs.after_edge(e)
+            paths += [[(guards.subst(x_, vcm), pol_) for x_, pol_ in p_] for p_ in gs.after_edge(e)]
         # chained comparisons `a <= x <= b` are split by the guard logic; int(x) vs x are different operands on purpose
         with guards.int_theory():
             bad = guards.any_path_implies(paths, goal)
